@@ -5,14 +5,18 @@
 #include <stdint.h>
 #include "replay.c"
 
-/* link-time stubs: none of them is called by the probe */
-conf_t conf = NULL;
+/* link-time stubs; replay_init () needs conf and arms the (stub) timer */
+static struct conf conf_storage;
+conf_t conf = &conf_storage;
 void log_msg (int priority, const char *format, ...) { }
 void log_err (int status, int priority, const char *format, ...) { }
 void log_errno (int status, int priority, const char *format, ...) { }
 long timer_set_relative (callback_f cb, void *arg, long msec) { return 1; }
 
 #define MACLEN ((int) sizeof (((replay_t) 0)->data.mac))
+
+static long long grabbed_texp;
+static int grab_f (void *data, const void *key, void *arg) { grabbed_texp = (long long) ((replay_t) data)->data.t_expired; return 1; }
 
 int main(void) {
     union replay_node a, b;
@@ -28,9 +32,22 @@ int main(void) {
     printf("Definition replay_purge_secs : N := %d.\n", (int) MUNGE_REPLAY_PURGE_SECS);
     printf("Definition munge_maximum_ttl : N := %d.\n", (int) MUNGE_MAXIMUM_TTL);
     printf("Definition munge_default_ttl : N := %d.\n", (int) MUNGE_DEFAULT_TTL);
-    /* t_expired = (time_t)(m->time0 + m->ttl): width of the sum */
-    printf("Definition replay_texp_modulus : N := %llu.\n",
-           (unsigned long long) 1 << (8 * sizeof (((m_msg_t) 0)->time0 + ((m_msg_t) 0)->ttl)));
+    /* t_expired as replay_insert computes it from time0 = 2^32-1, ttl = 2: 1 if the sum is formed in
+       32 bits, 2^32+1 if it is formed in time_t; replay_remove must build the same key */
+    {
+        struct munge_cred c; struct m_msg m; int rm;
+        memset (&c, 0, sizeof c); memset (&m, 0, sizeof m);
+        c.msg = &m; c.mac_len = MACLEN; m.time0 = 0xFFFFFFFFu; m.ttl = 2;
+        replay_init ();
+        grabbed_texp = -1;
+        if (replay_insert (&c) != 0) grabbed_texp = -2;
+        else hash_for_each (replay_hash, grab_f, NULL);
+        rm = replay_remove (&c);
+        replay_fini ();
+        printf("Definition replay_texp_wraps32 : bool := %s.\n", grabbed_texp == 1 ? "true" : "false");
+        printf("Definition replay_texp_exact : bool := %s.\n",
+               (grabbed_texp == 4294967297LL && rm == 0) ? "true" : "false");
+    }
 
     /* replay_key_f: weight of every MAC byte, then a linearity check on pseudo-random nodes */
     for (i = 0; i < MACLEN; i++) {
